@@ -2,7 +2,7 @@ PROPERTY = "C12"
 PACKAGES = ["./bridgeservice", "./internal/zzverifhttp"]
 B = "github.com/agglayer/aggkit/bridgeservice."
 OBLIGATIONS = []
-for n, mb, tiers in ((3, 4, ("quick", "thorough")), (4, 6, ("quick", "thorough")), (5, 8, ("thorough",)), (6, 16, ("thorough",))):
+for n, mb, tiers in ((3, 4, ("quick", "thorough")), (4, 6, ("quick", "thorough")), (5, 8, ("thorough",)), (4, 12, ("thorough",))):
     for side in ("L1", "L2"):
         OBLIGATIONS.append(dict(
             name="C12.b %s bridge: %d L1 info updates in blocks 1..%d (several per block allowed): the index lookup returns a covering index, and fails iff none covers the deposit" % (side, n, mb),
